@@ -290,6 +290,8 @@ def warm_sweep(ctx: Ctx, rng: random.Random, key_of) -> int:
     import c12
     keys = sorted({(e["cc"], e["code"]) for e in c12.raw_entries() if e["code"] and e["cc"] not in ("DE",)})
     fresh_key = keys.pop()
+    de_codes = sorted({e["code"] for e in c12.raw_entries() if e["cc"] == "DE" and e["code"] and e["code"] != "43060967"})
+    de_codes = de_codes[:: max(1, len(de_codes) // 200)]
     A = [{"op": "bic.new", "t": cps("GENODEM1GLS"), "strict": False},
          {"op": "bic.lookup", "cc": cps("DE"), "code": cps("43060967")},
          {"op": "iban.bank", "t": cps("DE42430609677000534100")},
@@ -303,18 +305,23 @@ def warm_sweep(ctx: Ctx, rng: random.Random, key_of) -> int:
     counts = thr_jobs(ctx, [{"mode": "count", "calls": A + B}], "warmcnt")[0]["count"]
     jobs, meta = [], []
     for w in ((16, 32) if ctx.quick else (8, 16, 32, 64, 128)):
-        warm = [{"op": "bic.new", "t": cps("TEST" + cc + "22"), "strict": False} for cc in iso[:w - 1]]
-        warm.append(A[0])
-        warm += [{"op": "iban.new", "t": cps(gen.valid_iban(r, rng)), "vb": False} for r in rows[:w - 1]] + [A[3]]
-        warm += [{"op": "bic.lookup", "cc": cps(cc), "code": cps(code)} for cc, code in keys[:: max(1, len(keys) // w)][:w - 1]]
-        warm.append(A[1])
-        for ia, ib in pairs:
-            for first, other, n in ((1, 2, counts[ia]["lines"]), (2, 1, counts[len(A) + ib]["lines"])):
-                step = 1 if not ctx.quick or n <= 60 else 2
-                for k in range(0, n + 1, step):
-                    jobs.append({"mode": "lines", "calls": [A[ia], B[ib]], "warm": warm,
-                                 "turns": [[first, k], [other, 10 ** 6], [first, 10 ** 6]]})
-                    meta.append((ia, ib, w, k, first))
+        # three histories, each of exactly w distinct keys of ONE kind (so that a table of that kind is
+        # exactly full), ending with the key thread A will ask about
+        warms = [
+            [{"op": "bic.new", "t": cps("TEST" + cc + "22"), "strict": False} for cc in iso[:w - 1]] + [A[0]],
+            [{"op": "iban.new", "t": cps(gen.valid_iban(r, rng)), "vb": False} for r in rows[:w - 1]] + [A[3]],
+            [{"op": "bic.lookup", "cc": cps("DE"), "code": cps(code)} for code in de_codes[:w - 1]] + [A[1]],
+        ]
+        for wi, warm in enumerate(warms):
+            for ia, ib in pairs:
+                if (wi == 0 and ib != 0) or (wi == 1 and (ia, ib) != (3, 2)) or (wi == 2 and ib != 1):
+                    continue            # the new key thread B brings is of the kind the history filled
+                for first, other, n in ((1, 2, counts[ia]["lines"]), (2, 1, counts[len(A) + ib]["lines"])):
+                    step = 1 if not ctx.quick or n <= 60 else 2
+                    for k in range(0, n + 1, step):
+                        jobs.append({"mode": "lines", "calls": [A[ia], B[ib]], "warm": warm,
+                                     "turns": [[first, k], [other, 10 ** 6], [first, 10 ** 6]]})
+                        meta.append((ia, ib, w, k, first))
     res = thr_jobs(ctx, jobs, "warmlines")
     runs = 0
     for (ia, ib, w, k, first), r in zip(meta, res):
